@@ -5,22 +5,19 @@ From V Require Import Base.Util Gql.Ast C05.Model C05.Spec C05.SpecExamples C05.
      C05.Proofs C05.Proofs2 C05.Proofs3 C05.Proofs4 C05.Proofs5 C05.Proofs6 C05.Proofs7 C05.Proofs8
      C05.Proofs9 C05.Proofs10 C05.Proofs11.
 
-(** no false alarm: a document valid under the specification gets no diagnostic, unless it has an additional
-    non-null argument with a default value (the known deviation, refuted below) *)
-Theorem C05_complete : forall doc,
-  spec_valid doc = true -> ok_extra_args_nullable doc = true -> check_doc doc = [].
+(** no false alarm: a document valid under the specification gets no diagnostic *)
+Theorem C05_complete : forall doc, spec_valid doc = true -> check_doc doc = [].
 Proof. exact complete. Qed.
 Print Assumptions C05_complete.
 
-Definition C05_complete_full : Prop := forall doc, spec_valid doc = true -> check_doc doc = [].
-Theorem C05_complete_extra_default_refuted : exists doc, spec_valid doc = true /\ check_doc doc <> [].
-Proof.
-  exists w_extra_default. destruct extra_default_refuted as [H1 [H2 H3]]. split; [exact H1 | rewrite H2; exact H3].
-Qed.
-Print Assumptions C05_complete_extra_default_refuted.
+(** the former false alarm (an additional non-null argument with a default value) is gone: fe470c6 *)
+Theorem C05_complete_extra_default_accepted :
+  spec_valid Witness.w_extra_default = true /\ check_doc Witness.w_extra_default = [].
+Proof. exact extra_default_accepted. Qed.
+Print Assumptions C05_complete_extra_default_accepted.
 
-(** every implemented rule is enforced: no diagnostics => the rule is respected (two rules in the scope the
-    implementation gives them, see the refutations) *)
+(** every implemented rule is enforced: no diagnostics => the rule is respected (one rule, directive self-reference,
+    in the scope the implementation gives it, see the refutation) *)
 Theorem C05_sound : forall doc,
   check_doc doc = [] -> unique_names doc = true -> ok_app_arg_unique doc = true ->
   forall r, rule_ok_impl r doc = true.
@@ -29,13 +26,13 @@ Print Assumptions C05_sound.
 
 (** exactness: on well-formed documents (unique type and directive names, no application naming an argument twice
     or written with empty parentheses) the checker is silent exactly when the document respects every rule in the
-    implementation's reading and its additional arguments are nullable *)
+    implementation's reading *)
 Theorem C05_exact : forall doc, wf_doc doc = true ->
-  (check_doc doc = [] <-> (forall r, rule_ok_impl r doc = true) /\ ok_extra_args_nullable doc = true).
+  (check_doc doc = [] <-> forall r, rule_ok_impl r doc = true).
 Proof.
   intros doc Hwf. unfold wf_doc in Hwf. rewrite !andb_true_iff in Hwf. destruct Hwf as [[Hu Hau] Hne]. split.
-  - intros H. split; [apply sound_all; assumption | apply sound_extra_args_nullable; assumption].
-  - intros [HR HK]. apply (complete_gen false); assumption.
+  - intros H. apply sound_all; assumption.
+  - intros HR. apply (complete_gen false); assumption.
 Qed.
 Print Assumptions C05_exact.
 
@@ -58,11 +55,11 @@ Print Assumptions C05_sound_local.
 Definition C05_sound_full : Prop :=
   forall doc, check_doc doc = [] -> unique_names doc = true -> ok_app_arg_unique doc = true ->
   forall r, rule_ok r doc = true.
-Theorem C05_sound_directive_args_int_range_refuted :
-  exists doc, check_doc doc = [] /\ unique_names doc = true /\ ok_app_arg_unique doc = true /\
-              rule_ok RDirectiveArgs doc = false.
-Proof. exists w_int_range. destruct int_range_refuted as [A [B [C [D _]]]]. repeat split; assumption. Qed.
-Print Assumptions C05_sound_directive_args_int_range_refuted.
+(** Int literals outside the signed 32-bit range are part of the enforced rule now (556742c): the former witness is reported *)
+Theorem C05_sound_directive_args_int_range_rejected :
+  rule_ok RDirectiveArgs Witness.w_int_range = false /\ check_doc Witness.w_int_range <> [].
+Proof. destruct int_range_rejected as [A [B C]]. split; [exact A | rewrite B; exact C]. Qed.
+Print Assumptions C05_sound_directive_args_int_range_rejected.
 Theorem C05_sound_directive_recursive_nested_refuted :
   exists doc, check_doc doc = [] /\ unique_names doc = true /\ ok_app_arg_unique doc = true /\
               rule_ok RDirectiveRecursive doc = false.
